@@ -22,6 +22,8 @@ def build_wf(n, links, rem, rev=False):
         sp["order"] = list(range(n))[::-1]  # task_list not in precedence order  # the sets inside the PERT passes are then iterated in the opposite order
     if rev == "extend-gen":
         sp["link_api"] = "extend-gen"
+    if rev == "caller-list":
+        sp["caller_list_append"] = True  # the caller keeps the list he gave to BaseWorkflow and appends a later phase's task to his own list afterwards
     if rev == "dup-links":
         sp["links"] = sp["links"] + [list(l) for l in sp["links"]]  # every link declared twice (accepted by the library; the network is the same)
     if rev == "sub":
@@ -317,6 +319,7 @@ def hist_items(tier):
                         out.append((n, links, rem0, 1, "loaded-id0"))
                         out.append((n, links, rem0, 1, "loaded-sub"))
                         out.append((n, links, rem0, 1, "dup-links"))
+                        out.append((n, links, rem0, 1, "caller-list"))
                         out.append((n, links, rem0, 1, "late-append"))
                         for rot in range(len(links)):
                             out.append((n, links[rot:] + links[:rot], rem0, 1, "late-link"))  # every link takes its turn as the one added late
@@ -341,6 +344,7 @@ def hist_items(tier):
                         out.append((n, links, rem0, 2, "late-append"))
                         out.append((n, links, rem0, 2, "loaded-sub"))
                         out.append((n, links, rem0, 2, "dup-links"))
+                        out.append((n, links, rem0, 2, "caller-list"))
                         for rot in range(len(links)):
                             out.append((n, links[rot:] + links[:rot], rem0, 2, "late-link"))
         for links in F.fs_dags(5):
